@@ -54,6 +54,9 @@ type deferRec struct {
 
 // FnCtx is the verification context of one function.
 type FnCtx struct {
+	poisoned map[ssa.Value]bool // []string registers unusable after an in-place sort of another one
+	poisonAt  *ssa.BasicBlock          // the block of that sort.Strings call
+	poisonSuc map[*ssa.BasicBlock]bool // the blocks reachable from it
 	P    *Program
 	Fn   *ssa.Function
 	Name string
@@ -179,6 +182,7 @@ func NewFnCtx(p *Program, name string, fn *ssa.Function, c *spec.FuncSpec) *FnCt
 func (fc *FnCtx) reset(dry bool) {
 	fc.S = smt.NewScript()
 	fc.vals = map[ssa.Value]Val{}
+	fc.poisoned, fc.poisonAt, fc.poisonSuc = nil, nil, nil
 	fc.reach = map[*ssa.BasicBlock]*smt.Term{}
 	fc.out = map[*ssa.BasicBlock]*State{}
 	fc.edge = map[[2]int]*smt.Term{}
@@ -1304,7 +1308,18 @@ func (fc *FnCtx) mergeVals(vs []Val, guards []*smt.Term, hint string) Val {
 }
 
 // val returns the symbolic value of an SSA value.
+// poisonActive: the instruction being executed comes after the in-place sort
+// on some path (the engine visits blocks in an order of its own, so "after" is
+// decided on the control-flow graph: the rest of the call's block, and every
+// block reachable from it).
+func (fc *FnCtx) poisonActive() bool {
+	return fc.curBlock == fc.poisonAt || fc.poisonSuc[fc.curBlock]
+}
+
 func (fc *FnCtx) val(v ssa.Value) Val {
+	if fc.poisoned[v] && fc.poisonActive() {
+		fc.refuse("use of the []string register %s after sort.Strings reordered another one in place: it may share its backing array", v.Name())
+	}
 	if x, ok := fc.vals[v]; ok {
 		return x
 	}
